@@ -158,6 +158,67 @@ func pingIDs(n int) string {
 	return "pingids ok"
 }
 
+// burst: n requests outstanding at once on a connection of its own, the broker answers all of them back to back in reverse
+// order; every caller gets the response bearing its own id (however many are in flight, in whatever order they are answered)
+func burst(n int) string {
+	tr, utr := newFake(), newFake()
+	tr.in <- &message.ConnectResponse{RequestID: 0, ResultCode: message.ResultCodeSucceeded}
+	c, err := wire.Connect(&wire.ClientConnConfig{Transport: tr, UnreliableTransport: utr, PingInterval: time.Hour, PingTimeout: time.Hour})
+	if err != nil {
+		return "connect failed: " + err.Error()
+	}
+	defer c.Close()
+	type outcome struct {
+		k   int
+		ack *message.UpstreamMetadataAck
+		err error
+	}
+	results := make(chan outcome, n)
+	for k := 0; k < n; k++ {
+		go func(k int) {
+			ctx, cancel := context.WithTimeout(context.Background(), watchdog)
+			defer cancel()
+			a, err := c.SendUpstreamMetadata(ctx, &message.UpstreamMetadata{Metadata: &message.BaseTime{Name: fmt.Sprintf("b%d", k)}})
+			results <- outcome{k, a, err}
+		}(k)
+	}
+	idOf := map[string]uint32{} // tag -> request id as written
+	deadline := time.After(watchdog)
+	for len(idOf) < n {
+		select {
+		case m := <-tr.out:
+			if v, ok := m.(*message.UpstreamMetadata); ok {
+				idOf[v.Metadata.(*message.BaseTime).Name] = uint32(v.RequestID)
+			}
+		case <-deadline:
+			return fmt.Sprintf("burst: only %d of %d requests were written", len(idOf), n)
+		}
+	}
+	for k := n - 1; k >= 0; k-- { // all answers at once, newest first; the result string carries the tag
+		tr.in <- &message.UpstreamMetadataAck{RequestID: message.RequestID(idOf[fmt.Sprintf("b%d", k)]), ResultCode: message.ResultCodeSucceeded, ResultString: fmt.Sprintf("b%d", k)}
+	}
+	okN, bad := 0, ""
+	for j := 0; j < n; j++ {
+		r := <-results
+		switch {
+		case r.err != nil:
+			if bad == "" {
+				bad = fmt.Sprintf("caller %d got no response: %v", r.k, r.err)
+			}
+		case r.ack.ResultString != fmt.Sprintf("b%d", r.k) || uint32(r.ack.RequestID) != idOf[fmt.Sprintf("b%d", r.k)]:
+			if bad == "" {
+				bad = fmt.Sprintf("caller %d got the response of %s", r.k, r.ack.ResultString)
+			}
+		default:
+			okN++
+		}
+	}
+	if bad != "" {
+		return fmt.Sprintf("burst %d of %d: %s", okN, n, bad)
+	}
+	return fmt.Sprintf("burst ok %d", okN)
+}
+
 func kindOfResp(m message.Message) string {
 	switch m.(type) {
 	case *message.UpstreamOpenResponse:
@@ -395,7 +456,7 @@ func main() {
 			v, _ := strconv.Atoi(w[k])
 			return v
 		}
-		if w[0] != "reset" && w[0] != "pingids" && (im == nil || im.dead) {
+		if w[0] != "reset" && w[0] != "pingids" && w[0] != "burst" && (im == nil || im.dead) {
 			return "dead"
 		}
 		switch w[0] {
@@ -526,6 +587,8 @@ func main() {
 			case <-time.After(2 * time.Millisecond):
 			}
 			return "nobody"
+		case "burst":
+			return burst(n(1))
 		case "pingids": // a connection of its own that lives through n keepalive periods, with a metadata request in between
 			return pingIDs(n(1))
 		case "sync": // re-arm the sentinel
